@@ -1,2 +1,54 @@
-(* Props/C19.v — per-file live/dead accounting always matches the files' real contents. *)
-From BC Require Import Store.Engine.
+(* Props/C19.v — C19: per-file live/dead accounting always matches the files' real contents. *)
+From BC Require Import Store.Engine Store.Log Store.Step Store.Cons Store.Inv Store.Refine Store.Merge Store.Theorems Store.Pinned.
+Open Scope N_scope.
+
+(* Ground truth ([Store/Log.v]): a record at (file, offset) is live iff the index entry of its key
+   denotes exactly that (file, offset); [nlive]/[ndead]/[bdead] count the live records, the other
+   records and the bytes of the other records of one file. *)
+
+(* 1. In every state reachable by a crash-free history (sets, deletes of present and absent keys,
+      merges of whatever subset the thresholds select, reopen cycles rebuilding from data files and
+      from hint files), the counters of every file equal ground truth, and a file has a counter row
+      exactly when it holds at least one record. *)
+Theorem C19_counters_exact : forall c s, reachable c s -> forall g,
+  live (sget0 (s_stats s) g) = nlive (slog s) (s_idx s) g /\
+  dead (sget0 (s_stats s) g) = ndead (slog s) (s_idx s) g /\
+  dead_bytes (sget0 (s_stats s) g) = bdead (slog s) (s_idx s) g /\
+  (sget (s_stats s) g = None <-> has_file (slog s) g = false).
+Proof. intros c s Hr. exact (counters_exact s (reachable_inv c s Hr)). Qed.
+Print Assumptions C19_counters_exact.
+
+(* 2. The index itself is exact: each key's entry is the location of its latest value record. *)
+Theorem C19_index_exact : forall c s, reachable c s -> forall k, iget (s_idx s) k = lastloc (slog s) k None.
+Proof. intros c s Hr. exact (index_exact s (reachable_inv c s Hr)). Qed.
+Print Assumptions C19_index_exact.
+
+(* 3. `live_keys -= 1` never underflows: no step of a ready script ends in the panic outcome the
+      model gives to an underflow (nor in any other failure). *)
+Theorem C19_no_underflow : forall c s o, reachable c s -> op_ready c s o -> normal (snd (fst (step c s o))) = true.
+Proof. intros c s o Hr. exact (no_underflow c s o (reachable_inv c s Hr)). Qed.
+Print Assumptions C19_no_underflow.
+
+(* 4. The single-step form used above: appending any record keeps counters exact, with the code's
+      own arithmetic ([stats_step] is what put, delete and both recovery scans compute). *)
+Theorem C19_step : forall L i x f p e, wfL (L ++ [(f, p, e)]) -> cons L i x ->
+  exists x', stats_step x i (f, p, e) = Some x' /\ cons (L ++ [(f, p, e)]) (idx_step i (f, p, e)) x'.
+Proof. exact step_full. Qed.
+Print Assumptions C19_step.
+
+(* The pinned recovery violated it (D1): after set k v; del k; reopen, file 0 is counted as holding
+   one live key although no key's current value lives in it. *)
+Theorem C19_pinned_refuted :
+  let s := fst (fst (run (mkCfg 1000 false 1 1 1000 0) init [OSet [107] [118]; ODel [107]])) in
+  match rebuild_files_pinned (s_dir s) ([], []) with
+  | Some (i, x) => live (sget0 x 0) = 1 /\ nlive (slog s) (s_idx s) 0 = 0
+  | None => False
+  end.
+Proof. vm_compute. split; reflexivity. Qed.
+Print Assumptions C19_pinned_refuted.
+
+Example C19_example :
+  let c := mkCfg 60 false 0 1 0 1000000000 in
+  let s := fst (fst (run c init [OSet [65] [1]; OSet [65] [2]; OSet [66] [3]; ODel [66]; ODel [67]; OReopen])) in
+  sget0 (s_stats s) 0 = mkCnt 1 2 54 /\ sget0 (s_stats s) 1 = mkCnt 0 2 36 /\ sget (s_stats s) 2 = None.
+Proof. vm_compute. repeat split. Qed.
